@@ -30,7 +30,8 @@ func init() {
 		Name:  "ENUM-INVERSE",
 		IR:    "ast",
 		Props: []string{"C31", "C19", "C27"},
-		Floor: 2,
+		Floor:   2,
+		FloorBy: map[string]int{"C31": 1, "C19": 1, "C27": 1},
 		Narrow: func(o *Obligation) {
 			k := strings.TrimPrefix(o.Key, "ENUM-INVERSE/")
 			switch {
